@@ -124,6 +124,7 @@ type FCtx struct {
 	noOverflow        bool
 	mayPanic          bool
 	mayPanicCallsOnly bool
+	appendSelf        *ast.CallExpr // the append call of an `x = append(x, ...)` statement being executed
 	loopOrd           int
 	retOrd            map[token.Pos]int
 	paramObs          []ObsVar
